@@ -678,3 +678,81 @@ def classify_stripmined(items, regs_init):
     if tail_widths != want:
         problems.append("tail widths %s do not cover every remainder in [0,%d): expected %s" % (tail_widths, W, want))
     return {"ok": not problems, "problems": problems, "facts": facts}
+
+
+# ------------------------------------------------------------------------------ lane-symbolic evaluation
+def lane_eval(items, regs, nout, ins_terms):
+    """Symbolic evaluation of a pointer-walking inline-asm block with lane-uniform vector instructions.
+    Returns {"stores": [(pointer operand term, lane expression)], "loop": {...} | None, "problems": [...]}.
+    Lane expressions: ("load", ptr term) | ("bcast", ptr term) | ("scalar", ptr term) | (op, a, b)."""
+    rev = {r: ins_terms[k - nout] for k, r in regs.items() if k >= nout}
+    vec = {}
+    stores = []
+    problems = []
+    lps = loops_of(items)
+    body_range = (lps[0]["head"], lps[0]["tail"]) if lps else (0, len(items))
+    for idx_, it in enumerate(items):
+        if not isinstance(it, Ins):
+            continue
+        op, a = it.op, it.args
+        in_loop = body_range[0] <= idx_ <= body_range[1]
+        def ptr(m):
+            if m[0] == "mem" and m[2] in rev and m[1] == 0 and m[3] is None:
+                return rev[m[2]]
+            return None
+        if op in ("vpbroadcastd", "vbroadcastsd") and a[0][0] == "mem" and a[1][0] == "reg":
+            p = ptr(a[0])
+            vec[a[1][1][1:] if False else _vn(a[1][1])] = ("bcast", p) if p is not None else ("?",)
+        elif op in ("vmovd", "vmovq") and a[0][0] == "mem" and a[1][0] == "reg":
+            p = ptr(a[0])
+            vec[_vn(a[1][1])] = ("scalar", p) if p is not None else ("?",)
+        elif op in ("vmovdqu", "vmovdqa", "vmovupd", "vmovapd") and len(a) == 2:
+            if a[0][0] == "mem" and a[1][0] == "reg":
+                p = ptr(a[0])
+                vec[_vn(a[1][1])] = ("load", p) if p is not None else ("?",)
+            elif a[0][0] == "reg" and a[1][0] == "mem":
+                p = ptr(a[1])
+                if p is None:
+                    problems.append("store through an unresolved pointer: %s" % it.raw)
+                else:
+                    stores.append((p, vec.get(_vn(a[0][1]), ("?",)), in_loop))
+        elif op in ("vpsrld", "vpslld", "vpand", "vpor", "vpxor", "vpsubd", "vpaddd", "vmulpd", "vaddpd", "vsubpd") and len(a) == 3 \
+                and all(x[0] == "reg" for x in a):
+            s2, s1, d = (_vn(x[1]) for x in a)
+            name = {"vpsrld": ">>u", "vpslld": "<<", "vpand": "&", "vpor": "|", "vpxor": "^", "vpsubd": "-", "vpaddd": "+",
+                    "vmulpd": "*.", "vaddpd": "+.", "vsubpd": "-."}[op]
+            vec[d] = (name, vec.get(s1, ("?",)), vec.get(s2, ("?",)))
+        elif op in ("addq", "subq", "cmpq", "cmp", "leaq", "incq") or op in JCC or op in ("vzeroall", "vzeroupper", "nop"):
+            pass
+        elif op in ("vcvtdq2pd", "vcvtsi2sd", "vcvtsi2sdq"):
+            if a[-1][0] == "reg":
+                src = a[0]
+                p = ptr(src) if src[0] == "mem" else None
+                vec[_vn(a[-1][1])] = ("cvt", ("load", p) if p is not None else vec.get(_vn(src[1]), ("?",)) if src[0] == "reg" else ("?",), None)
+        else:
+            problems.append("instruction not modelled lane-wise: %s" % it.raw)
+    return {"stores": stores, "problems": problems, "loops": lps}
+
+
+def _vn(r):
+    """ymm3 and xmm3 are the same register"""
+    return "v" + r[3:] if r.startswith(("ymm", "xmm")) else r
+
+
+def lane_to_term(e, lane):
+    """lane expression -> sym term for lane index `lane`"""
+    from . import sym as S
+    k = e[0]
+    if k == "load":
+        return S.idx(e[1], lane)
+    if k in ("bcast", "scalar"):
+        return S.idx(e[1], S.ZERO)
+    if k == ">>u":
+        return ("op", ">>", lane_to_term(e[1], lane), lane_to_term(e[2], lane))
+    if k in ("&", "|", "^", "<<"):
+        return S.binop(k, lane_to_term(e[1], lane), lane_to_term(e[2], lane))
+    if k == "-":
+        return S.sub(lane_to_term(e[1], lane), lane_to_term(e[2], lane))
+    if k == "+":
+        return S.add(lane_to_term(e[1], lane), lane_to_term(e[2], lane))
+    return ("unk", "lane:%s" % (k,))
